@@ -112,7 +112,10 @@ def _calib(case, cov, viol):
         )
         for alpha in ALPHAS:
             q = Fraction(str(alpha)) * (1 + Fraction(1, n))
-            if q > 1:
+            if q >= 1:
+                # a share cannot exceed 1: the level is not attainable with this many calibration units (and cannot
+                # occur at or above the minimum number of reporting units, see C14)
+                cov["unattainable_levels_skipped"] += 1
                 continue
             for robust in (False, True):
                 model = NonparametricElectionModel({"robust": robust})
@@ -149,10 +152,22 @@ def _calib(case, cov, viol):
                 else:
                     covered = sum(w for s, w in zip(scores, weights) if s <= c + 2e-6)
                 share = Fraction(covered, sum(weights))
-                if not share > q - Fraction(1, 10**9):
+                # 'exceeds' is strict.  A tolerance is granted only where floats cannot represent the comparison exactly
+                # (the float quantile level or the float cumulative share differs from its exact value)
+                q_float = alpha * (1 + 1 / n)
+                tot = float(sum(weights))
+                cum = 0.0
+                for s_, w_ in sorted(zip(scores, weights)):
+                    if (Fraction(str(s_)) <= c_eff) if abs(snapped - c) < 2e-6 else (s_ <= c + 2e-6):
+                        cum += w_ / tot
+                exact = Fraction(q_float) == q and Fraction(cum) == share
+                ok_share = share > q if exact else share > q - Fraction(1, 10**9)
+                if not ok_share:
                     viol("undercalibrated", f"{ctx}: correction {c:.6f} covers weighted share {float(share):.4f} of the calibration units, needs > {float(q):.4f}")
                 if share == q:
                     cov["share_exactly_at_quantile"] += 1
+                if exact and any(Fraction(sum(w2 for s2, w2 in zip(scores, weights) if s2 <= s3), sum(weights)) == q for s3 in scores):
+                    cov["exact_knife_edge_sets"] += 1
                 if robust:
                     uq = float(np.quantile(np.array(scores), q=float(q)))
                     if c < uq - 2e-6:
@@ -283,4 +298,4 @@ def post(cases, results, tier, seed):
     return {"violations": viols, "cov": {f"min_coverage_permille_alpha_{a}": int(round(1000 * f)) for a, f in worst.items()}}
 
 
-REQUIRED_COUNTERS = {"calibration_checks": 10000, "orderings": 10000, "tied_scores": 1000, "weighted_differs_from_unweighted": 200, "negative_correction": 500}
+REQUIRED_COUNTERS = {"calibration_checks": 10000, "orderings": 10000, "tied_scores": 1000, "weighted_differs_from_unweighted": 200, "negative_correction": 500, "exact_knife_edge_sets": 50}
